@@ -14,6 +14,7 @@
 package main
 
 import (
+	"context"
 	"errors"
 	"fmt"
 	"net/http"
@@ -132,11 +133,62 @@ func paramReq(k int, id string) (path string, want []string) {
 	return "/img/prei" + id + "/" + id, []string{"name=i" + id, "size=" + id}
 }
 
-func echoParams(c fox.Context) {
+// what one request saw, on the original context and on its copy (Clone / CloneWith), before and after next
+type probe struct {
+	mode                                                string
+	origBefore, copyBefore, handler, origAfter, copyAfter []string
+	sawCopy                                             bool
+}
+
+type probeKey struct{}
+
+func paramsOf(c fox.Context) []string {
+	var ps []string
 	for p := range c.Params() {
-		c.Writer().Header().Add("X-P", p.Key+"="+p.Value)
+		ps = append(ps, p.Key+"="+p.Value)
+	}
+	return ps
+}
+
+func echoParams(c fox.Context) {
+	ps := paramsOf(c)
+	if pr, ok := c.Request().Context().Value(probeKey{}).(*probe); ok {
+		pr.handler = ps
+	}
+	for _, p := range ps {
+		c.Writer().Header().Add("X-P", p)
 	}
 	c.Writer().WriteHeader(http.StatusOK)
+}
+
+// middleware of the PUT variants of the parameter routes: copies the context the way real middleware does
+// (Clone for use after the request, CloneWith + Close to run something with another writer/request)
+func cloneMiddleware(next fox.HandlerFunc) fox.HandlerFunc {
+	return func(c fox.Context) {
+		pr, _ := c.Request().Context().Value(probeKey{}).(*probe)
+		if pr == nil {
+			next(c)
+			return
+		}
+		pr.origBefore = paramsOf(c)
+		var cp fox.Context
+		var closer fox.ContextCloser
+		switch pr.mode {
+		case "Clone":
+			cp = c.Clone()
+		default:
+			closer = c.CloneWith(c.Writer(), c.Request())
+			cp = closer
+		}
+		pr.sawCopy = true
+		pr.copyBefore = paramsOf(cp)
+		next(c)
+		pr.origAfter = paramsOf(c)
+		pr.copyAfter = paramsOf(cp)
+		if closer != nil {
+			closer.Close()
+		}
+	}
 }
 
 func dpath(j int) string { return "/d/" + strconv.Itoa(j) }
@@ -165,6 +217,7 @@ func (r *round) setup() {
 	}
 	for _, p := range paramRoutes {
 		must(f.Handle("GET", p, echoParams))
+		must(f.Handle("PUT", p, echoParams, fox.WithMiddleware(cloneMiddleware)))
 	}
 	if r.nD > 0 {
 		for _, m := range truncMethods {
@@ -622,11 +675,57 @@ func (r *round) reader(tid int, rnd *hx.Rand, out *[]rec, stop *atomic.Bool) {
 		ti := rnd.Intn(len(ts))
 		t := ts[ti]
 		record := n%r.recEvery == 0
-		kind := rnd.Intn(125)
+		kind := rnd.Intn(150)
 		if record {
 			e.call = clock.Add(1)
 		}
 		switch {
+		case kind >= 125:
+			// the same, through code that COPIES the context: a middleware calling Clone or CloneWith (+ Close), or
+			// Lookup followed by CloneWith; the original and the copy, before and after the handler ran, must all show
+			// this request's own parameters
+			e.what = "params+clone"
+			nreq++
+			id := strconv.Itoa(tid) + "000" + strconv.Itoa(nreq)
+			pk := rnd.Intn(len(paramRoutes))
+			path, want := paramReq(pk, id)
+			pr := &probe{mode: "Clone"}
+			if kind >= 133 {
+				pr.mode = "CloneWith"
+			}
+			req := httptest.NewRequest("PUT", path, nil)
+			req = req.WithContext(context.WithValue(req.Context(), probeKey{}, pr))
+			views := map[string][]string{}
+			if kind < 142 {
+				w := httptest.NewRecorder()
+				r.f.ServeHTTP(w, req)
+				if w.Code != 200 || !pr.sawCopy {
+					r.fail("ServeHTTP PUT %s: status %d, middleware ran: %v", path, w.Code, pr.sawCopy)
+				}
+				views = map[string][]string{"original before next": pr.origBefore, "copy before next": pr.copyBefore,
+					"handler": pr.handler, "original after next": pr.origAfter, "copy after next": pr.copyAfter}
+			} else {
+				pr.mode = "Lookup+CloneWith"
+				rte, cc, _ := r.f.Lookup(rw, req)
+				if cc == nil || rte == nil || rte.Pattern() != paramRoutes[pk] {
+					r.fail("Lookup PUT %s found no or a wrong route", path)
+				} else {
+					views["lookup context"] = paramsOf(cc)
+					cp := cc.CloneWith(rw, req)
+					views["copy"] = paramsOf(cp)
+					views["lookup context after CloneWith"] = paramsOf(cc)
+					cl := cc.Clone()
+					cp.Close()
+					cc.Close()
+					views["Clone after Close"] = paramsOf(cl)
+				}
+			}
+			for where, got := range views {
+				if strings.Join(got, "&") != strings.Join(want, "&") {
+					r.fail("%s PUT %s (route %s) by goroutine %d: the %s shows the parameters [%s], not the request's own [%s]",
+						pr.mode, path, paramRoutes[pk], tid, where, strings.Join(got, " "), strings.Join(want, " "))
+				}
+			}
 		case kind >= 100:
 			// a request with parameters carrying an id unique to THIS request: whatever the router hands back
 			// (to the handler through c.Params(), or to the caller of Lookup) must reproduce this request
@@ -697,7 +796,7 @@ func (r *round) reader(tid int, rnd *hx.Rand, out *[]rec, stop *atomic.Bool) {
 			e.what = "Iter"
 			it := r.f.Iter()
 			e.vs = r.snapshotOf(it.All())
-			if l := r.f.Len(); l < r.K+2+r.nB+famSize*r.nC+len(paramRoutes)+2*truncN*r.nD {
+			if l := r.f.Len(); l < r.K+2+r.nB+famSize*r.nC+2*len(paramRoutes)+2*truncN*r.nD {
 				r.fail("Len() = %d", l)
 			}
 		default:
